@@ -5,9 +5,25 @@ import fractions
 import math
 
 import vlib
-from vlib import gZ, gQ, gbool
+from vlib import gbool
 
 F = fractions.Fraction
+_BIG = 1 << 16
+
+
+def _lit(n):
+    """integer literal; big ones in hexadecimal (Coq reads a 320-digit decimal literal in ~0.5 s, the hexadecimal form in
+    ~20 ms: the decimal reader is quadratic) -- this was 2/3 of the quick tier's run time"""
+    return '%d' % n if -_BIG < n < _BIG else ('-0x%x' % -n if n < 0 else '0x%x' % n)
+
+
+def gZ(n):
+    return '(%s)%%Z' % _lit(int(n))
+
+
+def gQ(x):
+    f = vlib.to_fraction(x)
+    return '(%s # %s)' % (_lit(f.numerator), _lit(f.denominator))
 
 DISP_OPS = ['add', 'sub', 'mul', 'div', 'floordiv', 'mod']
 EXACT_KINDS = ['time', 'mpq', 'Fraction', 'sympy.Rational', 'MyFrac', 'int', 'bool', 'np.int64', 'np.int8', 'np.uint8',
@@ -82,7 +98,9 @@ def rnd_pyval(rng, kind=None):
         return {'k': k, 'v': rng.choice(STR_TEXTS + [str(F(rng.randint(-50, 50), rng.randint(1, 9))), repr(rng.uniform(-5, 5))])}
     if k == 'opaque':
         return {'k': k, 'v': rng.choice(OPAQUE)}
-    if k in ('reflects', 'array'):
+    if k == 'array':
+        return {'k': k, 'v': rng.choice([None, 'int', 'empty', '2d', '0d', 'obj'])}
+    if k == 'reflects':
         return {'k': k, 'v': None}
     raise ValueError(k)
 
@@ -136,8 +154,12 @@ def pyobj(d):
         return {'None': None, 'complex': 1j, 'list': [1], 'object': object()}[v]
     if k == 'reflects':
         return sympy.Symbol('x')
+    if k == 'custom':
+        return custom_obj(v)
     if k == 'array':
-        return np.array([0.5, 2.0])
+        return {None: lambda: np.array([0.5, 2.0]), 'int': lambda: np.array([1, -2, 3]), 'empty': lambda: np.array([]),
+                '2d': lambda: np.array([[0.1, 1.5], [2.0, -0.25]]), '0d': lambda: np.array(0.75),
+                'obj': lambda: np.array([TimeType.from_fraction(1, 2), F(2, 3), 3], dtype=object)}[v]()
     raise ValueError(k)
 
 
@@ -213,9 +235,42 @@ def g_pyval(d):
         return 'VOpaque'
     if k == 'reflects':
         return 'VReflects'
+    if k == 'custom':
+        fl = lambda h: _g_pyfloat(float.fromhex(h))
+        duck = '(Some (%s, %s))' % (gZ(v['duck'][0]), gZ(v['duck'][1])) if v['duck'] else 'None'
+        integral = '(Some %s)' % gZ(v['int']) if v['integral'] else 'None'
+        real = '(Some %s)' % fl(v['float']) if v['real'] else 'None'
+        as_int = '(Some %s)' % gZ(v['int']) if v['int'] is not None else 'None'
+        as_float = '(Some %s)' % fl(v['float']) if v['float'] is not None else 'None'
+        return '(VCustom (mkProbes CtTypeError %s %s %s false %s %s))' % (duck, integral, real, as_int, as_float)
     if k == 'array':
         return 'VArray'
     raise ValueError(k)
+
+
+def observe_array_binop(op, t, arr, swap):
+    """array operand: the result must be the array of the scalar results (numpy's reflected operator, element by element);
+    the scalar operations themselves are checked by the other families"""
+    import numpy as np
+    try:
+        with vlib.time_limit(5):
+            r = op(arr, t) if swap else op(t, arr)
+            want = [op(x, t) if swap else op(t, x) for x in arr.ravel().tolist()] if arr.ndim else [op(arr.item(), t) if swap else op(t, arr.item())]
+    except vlib.Timeout:
+        return {'hang': True}
+    except ZeroDivisionError:
+        return {'b': 'BZeroDiv'}
+    except Exception as e:
+        return {'crash': '%s: %s' % (type(e).__name__, str(e)[:100])}
+    got = list(np.asarray(r, dtype=object).ravel().tolist()) if isinstance(r, np.ndarray) else [r]
+    if np.shape(r) != arr.shape:
+        return {'crash': 'result shape %r for operand shape %r' % (np.shape(r), arr.shape)}
+    try:
+        if [vlib.to_fraction(x) for x in got] != [vlib.to_fraction(x) for x in want]:
+            return {'crash': 'elementwise result %r differs from the scalar results %r' % (got, want)}
+    except Exception as e:
+        return {'crash': 'result element: %s' % e}
+    return {'b': 'BReflected'}
 
 
 def observe_binop(fn, reflecting=False):
@@ -313,4 +368,150 @@ def hash_values(rng, n):
             out.append(F(rng.randint(-10 ** 20, 10 ** 20), rng.randint(1, 10 ** 20)))
         else:
             out.append(F(rng.randint(-5, 5) * P + rng.randint(-2, 2), rng.choice([1, 2, P, 3 * P, 7])))
+    return out
+
+
+# ---------------------------------------------------------------------------------------------------------------------
+# round 4: comparison consistency on (rational, the float it rounds to) and tolerance grids with simple end points
+
+def _fl(x):
+    return {'ty': 'float', 'v': float(x).hex()}
+
+
+def cons_pairs(rng, n):
+    """(t, operand) pairs for the consistency family.  Deterministic part: non-dyadic rationals against the double they
+    round to (and its two neighbours), the decimal value of a float against the float, integers beyond 2^53 against the
+    double they round to, values too large for a double, the same against int / Fraction / time operands."""
+    out = []
+    rats = [F(1, 10), F(1, 3), F(2, 3), F(-1, 10), F(1, 7), F(22, 7), F(-5, 7), F(3, 10), F(7, 10), F(1, 100), F(123456789, 1000),
+            F(1, 10 ** 7), F(10 ** 23), F(10 ** 22) + F(1, 3), F(2 ** 53 + 1), F(-(2 ** 53) - 1), F(2 ** 64 + 1, 3),
+            F(1, 3 * 2 ** 1070), F(5, 10 ** 324), F(1, 10 ** 310), F(4, 10), F(1, 1000), F(314159, 100000)]
+    rats += [F(i, 7) for i in range(-3, 10)] + [F(i, 10) for i in (1, 2, 3, 6, 7, 9, 11)]
+    for q in rats:
+        f = q.numerator / q.denominator            # the double q rounds to (correctly rounded int / int)
+        for g in (f, math.nextafter(f, math.inf), math.nextafter(f, -math.inf)):
+            out.append((q, _fl(g)))
+        out.append((F(f), _fl(f)))                 # exactly the double: the equal case
+        out.append((q, {'ty': 'frac', 'v': str(F(f))}))       # the same two values, exact operand types
+        out.append((F(f), {'ty': 'time', 'v': str(q)}))
+    for x in (0.1, 0.2, 0.3, 0.7, 1e23, 1e22, 4.35, 2.675, 1e-7, 5e-324, 1.7976931348623157e308, 123456.789, 1 / 3, 0.1 + 0.2, -0.1):
+        out.append((F(repr(x)), _fl(x)))           # from_float(x) against x
+        out.append((F(x), _fl(x)))
+    for k in (0, 1, -1, 2 ** 53, 2 ** 53 + 1, 2 ** 53 + 2, 10 ** 23, -10 ** 23, 2 ** 64 - 1, 2 ** 1023):
+        out.append((F(k), _fl(float(k))))          # integers against the double they round to
+        out.append((F(k), {'ty': 'int', 'v': str(k)}))
+        out.append((F(k) + F(1, 3), {'ty': 'int', 'v': str(k)}))
+    for q in (F(10 ** 400), -F(10 ** 400), F(10 ** 400, 3), F(2 ** 1024), F(2 ** 1024) - F(1, 2)):      # float(t) overflows
+        for x in (1.7976931348623157e308, -1.7976931348623157e308, 1.0, 0.1):
+            out.append((q, _fl(x)))
+    out.append((F(0), _fl(-0.0)))
+    out.append((F(0), _fl(5e-324)))
+    for _ in range(n):
+        r = rng.random()
+        if r < 0.5:                                # random non-dyadic rational against the double it rounds to
+            q = F(rng.randint(-10 ** rng.randint(1, 18), 10 ** rng.randint(1, 18)), rng.choice([3, 7, 10, 100, 1000, 10 ** 9, 9, 11, 13]))
+            f = q.numerator / q.denominator
+            out.append((q, _fl(rng.choice([f, f, math.nextafter(f, math.inf), math.nextafter(f, -math.inf)]))))
+        elif r < 0.75:                             # decimal value of a random float against the float
+            x = rnd_float64(rng)
+            out.append((F(repr(x)), _fl(x)))
+        else:
+            q = F(rng.randint(-60, 60), rng.randint(1, 24))
+            out.append((q, rng.choice([{'ty': 'int', 'v': str(math.floor(q))}, {'ty': 'frac', 'v': str(q)},
+                                       {'ty': 'time', 'v': str(q)}, _fl(q.numerator / q.denominator)])))
+    return out
+
+
+def _brute(lo_n, lo_d, hi_n, hi_d, qmax=10 ** 6):
+    """fraction of smallest denominator strictly inside (lo, hi), integer arithmetic"""
+    q = 1
+    while q <= qmax:
+        p = lo_n * q // lo_d + 1
+        if p * hi_d < hi_n * q:
+            return p, q
+        q += 1
+    return None
+
+
+def simplest_in(x, e):
+    lo, hi = x - e, x + e
+    return _brute(lo.numerator, lo.denominator, hi.numerator, hi.denominator)
+
+
+_GRID_CACHE = {}
+
+
+def tol_grid(step, imax, jmax):
+    """(x, tol) float pairs on the decimal grid x = i*step, tol = j*step whose answer depends on whether the interval is
+    taken around the exact binary values (documented) or around the decimal values of the two floats: exactly the inputs
+    where a small-denominator fraction sits on (or within 1e-17 of) an end point of the true interval."""
+    key = (step, imax, jmax)
+    if key not in _GRID_CACHE:
+        out = []
+        for i in range(0, imax + 1):
+            x = float(F(i) * step)
+            xb, xd = F(x), F(i) * step
+            for j in range(1, jmax + 1):
+                t = float(F(j) * step)
+                tb, td = F(t), F(j) * step
+                a = simplest_in(xb, tb)
+                if a != simplest_in(xd, tb) or a != simplest_in(xb, td) or a != simplest_in(xd, td):
+                    out.append((x, t))
+        _GRID_CACHE[key] = out
+    return _GRID_CACHE[key]
+
+
+def dyadic_grid(k):
+    """x = a/2^k, tol = b/2^k: both floats exact, both end points are small-denominator fractions themselves (the open
+    interval excludes them)"""
+    return [(a / 2 ** k, b / 2 ** k) for a in range(0, 2 ** (k + 1) + 1) for b in range(1, 2 ** k + 1)]
+
+
+# ---------------------------------------------------------------------------------------------------------------------
+# round 4: objects that give prescribed answers to the questions TimeType._try_from_any asks
+
+_CUSTOM_CLASSES = {}
+
+
+def custom_obj(spec):
+    """spec: duck = None | [numerator, denominator, callable?]; integral / real: registered with numbers.Integral /
+    numbers.Real; int: None (int(x) raises TypeError) | value; float: None (float(x) raises TypeError) | hex of the value"""
+    import numbers
+    key = (tuple(spec['duck']) if spec['duck'] else None, spec['integral'], spec['real'], spec['int'], spec['float'])
+    if key not in _CUSTOM_CLASSES:
+        ns = {'__slots__': ()}
+        if spec['duck']:
+            n, d, call = spec['duck']
+            if call:
+                ns['numerator'] = lambda self, n=n: n
+                ns['denominator'] = lambda self, d=d: d
+            else:
+                ns['numerator'] = property(lambda self, n=n: n)
+                ns['denominator'] = property(lambda self, d=d: d)
+        if spec['int'] is not None:
+            ns['__int__'] = lambda self, z=spec['int']: z
+        if spec['float'] is not None:
+            ns['__float__'] = lambda self, f=float.fromhex(spec['float']): f
+        cls = type('Custom_%d' % len(_CUSTOM_CLASSES), (), ns)
+        if spec['integral']:
+            numbers.Integral.register(cls)
+        if spec['real']:
+            numbers.Real.register(cls)
+        _CUSTOM_CLASSES[key] = cls
+    return _CUSTOM_CLASSES[key]()
+
+
+def custom_specs():
+    """small-scope exhaustive: every combination of answers (consistent ones: a registered Integral answers int(), a
+    registered Real answers float())"""
+    out = []
+    for duck in (None, [3, 4, False], [-7, 2, True], [5, -3, False]):
+        for as_int in (None, 2, 7):
+            for as_float in (None, 2.0, 2.5, 7.25, float('inf')):
+                for integral in (False, True):
+                    for real in (False, True):
+                        if (integral and as_int is None) or (real and as_float is None):
+                            continue
+                        out.append({'duck': duck, 'integral': integral, 'real': real, 'int': as_int,
+                                    'float': None if as_float is None else as_float.hex()})
     return out
